@@ -191,8 +191,8 @@ def default_operands(types):
 def case_vars(case):
     """Grid variables of a case: list of (name, type) in order of first occurrence."""
     seen, out = set(), []
-    for i, x in enumerate(case['operands']):
-        for nm, ty in operand_vars(x, i):
+    for x in case['operands']:
+        for nm, ty in operand_vars(x):
             if nm not in seen:
                 seen.add(nm)
                 out.append((nm, ty))
@@ -202,7 +202,7 @@ def case_vars(case):
 _TVARS = {'t%x': 'i', 't%y': 'r', 't%p': 'l'}
 
 
-def operand_vars(text, pos=None):
+def operand_vars(text):
     """Grid variables an operand text refers to: list of (name, type)."""
     t = text.lower()
     if t in _TVARS:
@@ -621,7 +621,6 @@ def judge(s, vars_, ptree, perr, ftree):
 def _short(tree):
     """Fully parenthesised rendering of a tree (diagnostics only; never compared)."""
     import pymbolic.primitives as pmbl
-    from loki.expression import symbols as sym
     t = tree
     if isinstance(t, (int, float)):
         return str(t)
